@@ -20,9 +20,22 @@ package cache
 //@   on return assert new-entry-is-not-done: !old(has(j.Files, file.GetName())) ==> has(j.Files, file.GetName()) && !j.Files[file.GetName()].Done
 //@   on return assert entry-carries-the-file: has(j.Files, file.GetName()) && j.Files[file.GetName()].Size == file.GetSize() && j.Files[file.GetName()].Time == file.GetTime() && j.Files[file.GetName()].Hash == file.GetHash()
 
+//@   on return assert every-update-will-be-persisted: j.dirty
+
+// Persist writes whenever something changed since the last write (and the in-memory changes are
+// flagged by every operation that makes one)
+//@ func (*JSON).Persist
+//@   on return assert dirty-cache-is-written: old(j.dirty) ==> called((*JSON).write) && err == lastret((*JSON).write, 0)
+//@   modifies everything
+//@ func (*JSON).Reset
+//@   on return assert every-update-will-be-persisted: old(has(j.Files, key)) && old(j.Files[key]) != nil ==> j.dirty
+//@   modifies everything
+
 //@ func (*JSON).Done
+//@   on return assert every-update-will-be-persisted: old(has(j.Files, key)) && old(j.Files[key]) != nil && !old(j.Files[key].Done) ==> j.dirty
 //@   on return assert marks-only-key: forall(r, obj(r, *cacheFile).Done != old(obj(r, *cacheFile).Done) ==> old(has(j.Files, key)) && obj(r, *cacheFile) == old(j.Files[key]))
 //@   before call whileLocked assert callback-once-under-lock: exclusive(&j.mutex) && arg0 == f && as(f, *cacheFile).Done && !old(as(f, *cacheFile).Done) && ncalls(whileLocked) == 0
 
 //@ func (*JSON).Remove
+//@   on return assert every-update-will-be-persisted: old(has(j.Files, key)) && old(j.Files[key]) != nil ==> j.dirty
 //@   on return assert removes-only-key: (old(has(j.Files, key)) && old(j.Files[key]) != nil ==> !has(j.Files, key)) && forall(r, obj(r, *cacheFile).Done == old(obj(r, *cacheFile).Done))
